@@ -153,11 +153,56 @@ let show_reply r = match r with
   | MReject p -> "REJECT " ^ string_of_n p
   | MData (p, t, pl) -> Printf.sprintf "DATA %s %s %s" (string_of_n p) (string_of_n t) (pay_str pl)
 
+(* ---- unit-level PEX rounds: "U | A<lo>-<hi>:<base> R<lo>-<hi> x ..." *)
+let show_entries (l : (n * n) list) =
+  if l = [] then "." else String.concat "," (List.map (fun (i, p) -> string_of_n i ^ ":" ^ string_of_n p) l)
+let show_pexbuf = function
+  | None -> "-"
+  | Some (a, r) -> show_entries a ^ "/" ^ show_entries r
+
+let run_unit ops =
+  let d = ref (init false [] (n_of_int 40)) in
+  let parts = ref [] in
+  let range op =
+    let dash = String.index op '-' in
+    let col = try String.index op ':' with Not_found -> String.length op in
+    let lo = int_of_string (String.sub op 1 (dash - 1)) in
+    let hi = int_of_string (String.sub op (dash + 1) (col - dash - 1)) in
+    let base = if col < String.length op then int_of_string (String.sub op (col + 1) (String.length op - col - 1)) else 0 in
+    (lo, hi, base) in
+  (try List.iter (fun op ->
+    match op.[0] with
+    | 'A' ->
+        let (lo, hi, base) = range op in
+        for k = lo to min hi 4095 do
+          if not (List.exists (fun c -> int_of_n c.c_peer = k) !d.d_conns) then begin
+            let c0 = default_conn (n_of_int k) false in
+            let port = if base = 0 then 0 else (base + k) land 0xffff in
+            let c = { c0 with c_x = { c0.c_x with x_listen = n_of_int port } } in
+            d := set_conns !d (!d.d_conns @ [c]) !d.d_size_pex
+          end
+        done
+    | 'R' ->
+        let (lo, hi, _) = range op in
+        for k = lo to min hi 4095 do
+          d := set_conns !d (erase_conn (n_of_int k) !d.d_conns) !d.d_size_pex
+        done
+    | 'x' ->
+        (match do_peer_exchange !d with
+         | DpeInternalError -> parts := "ERR:internal" :: !parts; raise Exit
+         | DpeOk d' ->
+             d := d';
+             parts := ("x => list=" ^ show_entries d'.d_list ^ " ini=" ^ show_pexbuf d'.d_initial ^ " del=" ^ show_pexbuf d'.d_delta) :: !parts)
+    | _ -> failwith "unit op") ops
+  with Exit -> ());
+  String.concat " ; " (List.rev !parts)
+
 let () = each_line (fun line ->
   match split_ws line with
   | ["SLICE"; h; p] ->
       let m = bytes_of_hex h in
       show_reply (send_metadata_piece false m (n_of_string p)) ^ " | " ^ show_reply (send_metadata_piece_old false m (n_of_string p))
+  | "U" :: "|" :: ops -> run_unit ops
   | _ ->
     (match String.index_opt line '|' with
      | None -> "BADCASE"
